@@ -421,7 +421,11 @@ impl<T: 'static> ArcAsyncDerived<T> {
         loading: &Arc<AtomicBool>,
         ready_tx: Option<oneshot::Sender<()>>,
     ) {
+        #[cfg(leptos_verif)]
+        crate::verif_hooks::yield_point("notify_subs:enter");
         loading.store(false, Ordering::Relaxed);
+        #[cfg(leptos_verif)]
+        crate::verif_hooks::yield_point("notify_subs:stored");
 
         let prev_state = mem::replace(
             &mut inner.write().or_poisoned().state,
@@ -445,6 +449,8 @@ impl<T: 'static> ArcAsyncDerived<T> {
         for waker in mem::take(&mut *wakers.write().or_poisoned()) {
             waker.wake();
         }
+        #[cfg(leptos_verif)]
+        crate::verif_hooks::yield_point("notify_subs:drained");
 
         // if this was marked dirty before notifications began, this means it
         // had been notified while loading; marking it clean will cause it not to
